@@ -5,5 +5,6 @@ package sio
 var verifHarnesses = map[string]func(){
 	"VerifC14Sio":         VerifC14Sio,
 	"VerifC15":            VerifC15,
+	"VerifC17Sio":         VerifC17Sio,
 	"VerifSioOrderLemmas": VerifSioOrderLemmas,
 }
